@@ -50,6 +50,8 @@ pub struct InverseDictLookup<'a> {
     pub dict_indices: BufferRef<u64>,
     pub dict_data: BufferRef<u8>,
     pub constant: BufferRef<Scalar<&'a str>>,
+    // What to return for a constant that is not in the dictionary: 0 => -1, 1 => index of largest smaller entry, 2 => index of smallest larger entry
+    pub rounding: u8,
     pub output: BufferRef<Scalar<i64>>,
 }
 
@@ -57,6 +59,9 @@ impl<'a> VecOperator<'a> for InverseDictLookup<'a> {
     fn execute(&mut self, _: bool, scratchpad: &mut Scratchpad<'a>) -> Result<(), QueryError> {
         let result = {
             let mut result = -1;
+            // Number of dictionary entries that are smaller than the constant.
+            // The dictionary is sorted, so this is the index the constant would be inserted at.
+            let mut smaller = 0;
             let constant = scratchpad.get_scalar(&self.constant);
             let constant = constant.as_bytes();
             let dict_indices = scratchpad.get(self.dict_indices);
@@ -64,10 +69,21 @@ impl<'a> VecOperator<'a> for InverseDictLookup<'a> {
             for (i, offset_len) in dict_indices.iter().enumerate() {
                 let offset = (offset_len >> 24) as usize;
                 let len = (offset_len & 0x00ff_ffff) as usize;
-                if &dict_data[offset..(offset + len)] == constant {
+                let entry = &dict_data[offset..(offset + len)];
+                if entry == constant {
                     result = i as i64;
                     break;
                 }
+                if entry < constant {
+                    smaller += 1;
+                }
+            }
+            if result == -1 {
+                result = match self.rounding {
+                    1 => smaller - 1,
+                    2 => smaller,
+                    _ => -1,
+                };
             }
             result
         };
